@@ -280,7 +280,7 @@ func runC34(c *Ctx) {
 		c.Check(names["SOP"] && names["LongTermMemory"], r2, "IsSystemReadOnly covers the core system resources", fr.Decl.Pos(), fmt.Sprintf("%v", names), fmt.Sprintf("core names now %v", names), nil)
 	}
 
-	r3 := c.Rule("R3", "UI capability map agrees with enforcement", 3)
+	r3 := c.Rule("R3", "UI capability map agrees with enforcement", 4)
 	{
 		fcan := w.Fn("sop.CanPerformAction")
 		c.Analysed(fcan)
@@ -317,6 +317,49 @@ func runC34(c *Ctx) {
 			}
 		}
 		c.Check(okArgs, r3, "ResolveRBACMap's default branch asks CanPerformAction for the same action and asset", frm.Decl.Pos(), "CanPerformAction(ctx, AssetID, localAccess, action)", "the UI map is not computed from the enforcement decision for the same action/asset", nil)
+		// every entry of the map is an enforcement decision: capabilities[k] = Evaluator(...) | CanPerformAction(...)
+		{
+			rinfo := frm.Pkg.TypesInfo
+			nStores := 0
+			var bad []string
+			var pos token.Pos
+			ast.Inspect(frm.Body, func(x ast.Node) bool {
+				as, ok := x.(*ast.AssignStmt)
+				if !ok {
+					return true
+				}
+				for i, l := range as.Lhs {
+					ix, ok := ast.Unparen(l).(*ast.IndexExpr)
+					if !ok {
+						continue
+					}
+					if _, isMap := rinfo.TypeOf(ix.X).Underlying().(*types.Map); !isMap {
+						continue
+					}
+					nStores++
+					if i >= len(as.Rhs) {
+						continue
+					}
+					call, isCall := ast.Unparen(as.Rhs[i]).(*ast.CallExpr)
+					okV := false
+					if isCall {
+						if cs := w.resolveCall(frm, call); cs != nil && cs.Key == "sop.CanPerformAction" {
+							okV = true
+						}
+						if sel, isSel := ast.Unparen(call.Fun).(*ast.SelectorExpr); isSel && sel.Sel.Name == "Evaluator" {
+							okV = true
+						}
+					}
+					if !okV {
+						bad = append(bad, types.ExprString(as.Rhs[i]))
+						pos = as.Pos()
+					}
+				}
+				return true
+			})
+			c.Check(nStores >= 2 && len(bad) == 0, r3, "ResolveRBACMap: every capability stored is the Evaluator's or CanPerformAction's answer for that action", pos, fmt.Sprintf("%d stores, all enforcement decisions", nStores),
+				fmt.Sprintf("a capability is stored from %v instead of an enforcement decision (of %d stores): the UI map can show an action as allowed that CheckPolicy denies (the read-only rule for core system resources lives in CheckPolicy, outside Authorize)", bad, nStores), nil)
+		}
 		// custom evaluators
 		n := 0
 		for _, fn := range w.allDeclared() {
